@@ -63,7 +63,9 @@ def generate(rnd, tier, index=0):
     knob = rnd.randint(1, n_test) if rnd.random() < 0.5 else None
     return {"cfg": cfgs[0], "cfgs": cfgs, "regime": regime, "rows": rows, "test_size": test_size,
             "is_ordered": rnd.random() < 0.5, "batch_size": batch, "is_quick": rnd.random() < 0.4,
-            "seed": rnd.randrange(2 ** 20), "knob": knob, "sched": kernel.Sched.draw(rnd), "ops": []}
+            "seed": rnd.randrange(2 ** 20), "knob": knob, "sched": kernel.Sched.draw(rnd), "ops": [],
+            # how the logged data is handed to the Simulator (it converts with MAB._convert_array / _convert_matrix)
+            "sim_container": rnd.choice(["list", "list", "ndarray", "ndarray_F", "series_frame", "ndarray_float"])}
 
 
 def shrink_paths(case):
@@ -130,7 +132,11 @@ def run_simulator(case, ctx):
         batch = max(1, min(batch, n_test))
     out.batch = batch
     try:
-        sim = Simulator(bandits, dec, rew, ctxs, test_size=case["test_size"], is_ordered=case["is_ordered"],
+        from .world import _mat, _vec
+        cont = case.get("sim_container", "list")
+        ctx.fired("probe.sim_container." + cont)
+        sim = Simulator(bandits, _vec(dec, cont, False), _vec(rew, cont, True), _mat(ctxs, cont) if ctxs is not None else None,
+                        test_size=case["test_size"], is_ordered=case["is_ordered"],
                         batch_size=batch, seed=case["seed"], is_quick=case["is_quick"])
     finally:
         for h in list(root.handlers):
